@@ -2,6 +2,7 @@
 package rules
 
 import (
+	"fmt"
 	"sort"
 	"strings"
 
@@ -38,6 +39,8 @@ func Execute(r *Rule, ctx *an.Ctx) {
 	runLockTable(r.ID, ctx)
 	runErrTable(r.ID, ctx)
 	runProvTable(r.ID, ctx)
+	runConvSweep(r.ID, ctx)
+	runCtxSweep(r.ID, ctx)
 	done := map[string]*an.Ctx{}
 	for _, im := range r.Imports {
 		prop := im.From
@@ -98,4 +101,40 @@ func IDs() []string {
 	}
 	sort.Strings(out)
 	return out
+}
+
+// runConvSweep closes the one gap of the value model every rule shares: the terms treat integer
+// conversions as the identity. In every function a rule of the property has reasoned about, a
+// conversion that can change the value (unsigned→signed, narrowing) and feeds a decision must have
+// its operand proven in range; sites already recorded by the property's own arithmetic clause are
+// not repeated.
+func runConvSweep(id string, c *an.Ctx) {
+	have := map[string]bool{}
+	for _, o := range c.Obls {
+		for _, k := range []string{":sconv:", ":uwrap:"} {
+			if i := strings.Index(o.Key, k); i >= 0 {
+				have[o.Key[i:]] = true
+			}
+		}
+	}
+	for _, fn := range c.TermFuncs() {
+		if fn == nil || fn.Blocks == nil {
+			continue
+		}
+		ff := c.F(fn)
+		for _, v := range an.DischargeArith(ff, nil) {
+			if v.Site.Kind != "sconv" && v.Site.Kind != "uwrap" {
+				continue
+			}
+			key := fmt.Sprintf("%s:%s:%s", v.Site.Kind, an.FuncName(fn), v.Site.Desc)
+			if have[":"+an.Stable(key)] {
+				continue
+			}
+			if v.OK {
+				c.Ok(id+".conv", key, arithRule(v.Site.Kind), fn, v.Site.Instr, v.Why, nil)
+			} else {
+				c.Fail(id+".conv", key, arithRule(v.Site.Kind), fn, v.Site.Instr, v.Why, ff.At(v.Site.Instr.Block()))
+			}
+		}
+	}
 }
